@@ -381,6 +381,17 @@ def rule_cli_lines(ctx, R):
                 okc = cr is not None and any(x[0] == "agg" and x[2] == "None" for x in members(cr)) and \
                     any(x[0] == "agg" and x[2] == "Some" for x in members(cr)) and any(u[0] == "field" and u[3] == "no_filename" for u in ups) and \
                     any(y[0] == "call" and y[1].endswith("Path::to_str") for y in walk(fnm[2][0]))
+                if okc:
+                    # inside the closure: None exactly on the true arm of the no_filename test, Some(filename) on the false arm
+                    cv = [v_ for v_ in S.fv.views if v_.body.path == fnm[2][1][1]][0]
+                    cb = cv.body
+                    csw = switches_on(cv, lambda d: d[0] == "field" and d[3] == "no_filename")
+                    okc = len(csw) == 1 and len([1 for bi_ in cb.live_blocks() if cb.blocks[bi_]["term"]["k"] == "switch"]) == 1
+                    if okc:
+                        tt_, ff_ = bool_arms(csw[0][1])
+                        somes_ = [bi_ for bi_, si_, st_ in cb.stmts() if st_["k"] == "assign" and st_["lhs"]["local"] == 0 and st_["rv"]["k"] == "aggregate" and st_["rv"].get("variant") == "Some"]
+                        nones_ = [bi_ for bi_, si_, st_ in cb.stmts() if st_["k"] == "assign" and st_["lhs"]["local"] == 0 and st_["rv"]["k"] == "aggregate" and st_["rv"].get("variant") == "None"]
+                        okc = bool(somes_) and bool(nones_) and all(x not in cb.reach(tt_) for x in somes_) and all(x not in cb.reach(ff_) for x in nones_)
             ctx.check(okc, "CLI-FLAGS", b, "filename-unless-no-filename", loc,
                       "file lines carry the file's own name unless -h/--no-filename is set; found %s" % show(fnm)[:200])
     ctx.check(len(calls) == 2, "CLI-LINES", b, "two-line-loops", b.span, "one per-line loop for stdin and one for files expected; found %d" % len(calls))
@@ -451,3 +462,94 @@ def rule_cli_print(ctx, R):
         ety = s["c"].targ_s(0)
         ctx.check(ety in ("isize", "i64", "i32", "usize", "u64", "u32", "i128", "u128"), "CLI-BUF", b, "depth-counter-width", b.loc(s["bb"]),
                   "the per-byte nesting counter must not overflow for any number of overlapping matches (>= 32-bit integer); element type is %s" % ety)
+
+
+def rule_cli_hl2(ctx, R):
+    """CLI-HL2: the print loop of the colour branch: depth = running sum of the deltas; a plain segment line[prev..pos] is
+    flushed (after reset) exactly on a 0 -> non-0 transition, a red segment (after set_color) on a non-0 -> 0 transition,
+    prev := pos after each, and the tail line[prev..] is printed after a reset."""
+    cli = ctx.cli
+    if cli is None:
+        return
+    fo = [b for b in cli.bodies.values() if b.name == "find_and_output" and not b.is_closure]
+    if len(fo) != 1:
+        return
+    b = fo[0]
+    S = Sites(cli, b)
+    root = S.root
+    pnames = {b.local_names.get(i): i for i in range(1, b.arg_count + 1)}
+    if not all(n in pnames for n in ("line", "stream")):
+        return
+    line = Par(pnames["line"])
+    # the enumerate pull over the delta buffer
+    pulls = [s for s in S.calls if core.callee_base(s["key"]) == "core::iter::Iterator::next" and
+             any(x[0] == "call" and core.callee_base(x[1]) == "core::iter::Iterator::enumerate" for x in walk(s["args"][0])) and
+             any(x[0] == "call" and x[1] == "alloc::vec::from_elem" or x[0] == "var" for x in walk(s["args"][0]))]
+    if len(pulls) != 1:
+        ctx.bad("CLI-HL2", b, "print-loop", b.span, "one loop over the enumerated delta buffer expected; found %d" % len(pulls))
+        return
+    psite = (b.path, pulls[0]["bb"])
+    item = P(C(anykey, ANY, site=psite))
+    pos = F(item, "0", "(tuple)")
+    delta = F(item, "1", "(tuple)")
+    # segment writes: Index(line, Range{start, end}) / RangeFrom
+    segs = [s for s in S.calls if core.callee_base(s["key"]) == "core::ops::Index::index" and m(line, s["args"][0])]
+    in_loop = [s for s in segs if s["args"][1][0] == "agg" and s["args"][1][1] == "core::ops::Range"]
+    tail = [s for s in segs if s["args"][1][0] == "agg" and s["args"][1][1] == "core::ops::RangeFrom"]
+    prev = Phi(K(0), pos)
+    ok = len(in_loop) == 2 and len(tail) == 1
+    if ok:
+        for s in in_loop:
+            f = dict(s["args"][1][3])
+            ok = ok and m(prev, f["start"]) and m(pos, f["end"])
+        ok = ok and m(prev, dict(tail[0]["args"][1][3])["start"])
+    ctx.check(ok, "CLI-HL2", b, "segments", b.span,
+              "the loop prints line[prev_pos..pos] (pos = index in the delta buffer) twice and finally line[prev_pos..]; found %s"
+              % [show(s["args"][1])[:80] for s in segs])
+    if not ok:
+        return
+    sw_p = switches_on(root, lambda d: d[0] == "discr" and d[1][0] == "call" and d[1][3] == psite)
+    if len(sw_p) != 1:
+        return
+    some, none = opt_arms(sw_p[0][1])
+    # depth: 0 | depth + delta
+    depth_terms = []
+    for sbi, stj, d in switches_on(root, lambda d: d[0] == "bin" and d[1] in ("Eq", "Ne") and (is_const(d[2], 0) or is_const(d[3], 0))):
+        if b.edge_guards((sw_p[0][0], some), sbi):
+            depth_terms.append((sbi, stj, d))
+    olddepth = Phi(K(0), B("Add", ANY, delta), req=[0, 1])
+    newdepth = B("Add", Phi(K(0), B("Add", ANY, delta)), delta)
+
+    def cls(d):
+        x = d[3] if is_const(d[2], 0) else d[2]
+        if m(newdepth, x) and x[0] == "bin":
+            return "new"
+        if m(olddepth, x):
+            return "old"
+        return None
+    conds = {}
+    for sbi, stj, d in depth_terms:
+        c = cls(d)
+        if c:
+            tt, ff = bool_arms(stj)
+            conds.setdefault((c, d[1]), []).append((sbi, tt))
+    resets = [s for s in S.calls if s["name"] == "reset" and m(Par(pnames["stream"]), s["args"][0])]
+    setc = [s for s in S.calls if s["name"] == "set_color" and m(Par(pnames["stream"]), s["args"][0])]
+
+    def guarded(blk, keys):
+        return all(any(b.edge_guards((sbi, tt), blk) for sbi, tt in conds.get(k, [])) for k in keys)
+    plain = [s for s in in_loop if guarded(s["bb"], [("old", "Eq"), ("new", "Ne")])]
+    red = [s for s in in_loop if guarded(s["bb"], [("old", "Ne"), ("new", "Eq")])]
+    ctx.check(len(plain) == 1 and len(red) == 1 and plain[0] is not red[0], "CLI-HL2", b, "transition-guards", b.span,
+              "the plain segment is flushed when depth goes 0 -> non-0, the highlighted segment when it goes non-0 -> 0 "
+              "(depth = running sum of the deltas)")
+    if len(plain) == 1 and len(red) == 1:
+        okc = any(b.dominates(r["bb"], plain[0]["bb"]) and guarded(r["bb"], [("old", "Eq")]) for r in resets) and \
+            any(b.dominates(c["bb"], red[0]["bb"]) and guarded(c["bb"], [("old", "Ne")]) for c in setc)
+        ctx.check(okc, "CLI-HL2", b, "colours", b.span, "the plain segment is written after reset(), the matched segment after set_color()")
+        redspec = [x for c in setc for x in walk(c["args"][1]) if x[0] == "agg" and x[2] == "Red"]
+        ctx.check(bool(redspec), "CLI-HL2", b, "highlight-colour", b.span, "matched text is highlighted (foreground colour set)")
+    # depth := new depth on every iteration; prev := pos after each flush
+    ctx.check(any(b.edge_guards((sw_p[0][0], none), r["bb"]) and b.dominates(r["bb"], tail[0]["bb"]) for r in resets) and
+              b.edge_guards((sw_p[0][0], none), tail[0]["bb"]), "CLI-HL2", b, "tail", b.span,
+              "after the loop the remainder of the line is printed with colours reset")
